@@ -177,6 +177,20 @@ def execute(case):
               fdl.clear_tags(n, k)
             except Exception:
               pass
+        # ... and some nodes of `old` have ANOTHER callable, with a tag on a parameter that only
+        # the old callable has: the diff removes that tag, switches the callable and adds tags
+        rr = random.Random(case['seed'] ^ 0x51)
+        for n in C15.reachable_buildables(old):
+          sig = graphs.sig_of(n)
+          if (rr.random() < 0.5 and type(n.__fn_or_cls__).__name__ == 'function'
+              and all(p[0] != 'r' and p[1] in ('pk', 'ko') for p in sig)):
+            try:
+              fdl.update_callable(n, graphs.node_fn(1, rr.randrange(3)), drop_invalid_args=True)
+              fdl.add_tag(n, 'r', rr.choice(targets.TAGS))
+              if rr.random() < 0.5:
+                n.r = 5
+            except Exception:
+              pass
         if any(isinstance(k, int) for n in C15.reachable_buildables(root) for k in n.__arguments__):
           res['diff'] = 'skipped-positional'     # build_diff does not support positional arguments (C10 finding)
         else:
